@@ -84,6 +84,8 @@ func (r *runner) valID(v []byte) (uint32, bool) {
 	return id, true
 }
 
+var poisonKey = []byte("\xff\xffreused-batch")
+
 func (r *runner) mainConc() {
 	r.cs = &concState{valLen: map[uint32]int{}, journals: map[int64][]byte{}}
 	var walk func(ops []Op)
@@ -130,6 +132,12 @@ func (r *runner) mainConc() {
 		})
 	}
 	wg.Wait()
+	if r.db != nil && r.c.Prop == "C20" {
+		// also when a reader has tripped over the record already
+		if v, err := r.db.Get(poisonKey, nil); err == nil {
+			r.viol("arg-modified", "arg-modified:batch-retained", fmt.Sprintf("a record the caller put into its batch after Write had returned was written to the DB (%q): Write returned while the DB still referenced the batch", v))
+		}
+	}
 	if len(r.out.Viol) > 0 {
 		simrt.Abort("violation")
 	}
@@ -188,6 +196,14 @@ func (r *runner) clientConc(ci int, ops []Op) {
 					// e.g. records of merged writers left in the leader's batch
 					r.viol("arg-modified", "arg-modified:batch", fmt.Sprintf("client %d: Write changed the caller's batch (%d -> %d bytes)", ci, len(dump), len(b.Dump())))
 				}
+				if r.c.Prop == "C20" {
+					// the batch is the caller's again: reuse it at once. If the
+					// DB still holds it (e.g. a merge leader that has not
+					// applied it yet), the poison record gets written
+					b.Reset()
+					b.Put(poisonKey, []byte("reused-batch"))
+					r.probe("batch-reused-after-write")
+				}
 			}
 			simrt.SetOp("")
 			if err != nil {
@@ -198,7 +214,7 @@ func (r *runner) clientConc(ci int, ops []Op) {
 				}
 			}
 			r.end(h)
-			if err == nil && (r.c.Prop == "C10" || r.c.Prop == "C05") && !r.isLarge(h) {
+			if err == nil && (r.c.Prop == "C10" || r.c.Prop == "C05" || r.c.Prop == "C20") && !r.isLarge(h) {
 				r.checkLogged(ci, h)
 			}
 		case "get":
@@ -1241,7 +1257,7 @@ func genConc(prop string, seed uint64, g *gen, thorough bool) *Case {
 	if (prop == "C10" || prop == "C09") && r.p(0.3) {
 		closer = r.intn(nc)
 	}
-	storm := (prop == "C10" || prop == "C20") && r.p(0.35)
+	storm := prop == "C10" && r.p(0.35) || prop == "C20" && r.p(0.7)
 	if storm {
 		// many small-buffer writers: merges and overflow hand-offs all the time
 		nc = r.rng(4, 8)
@@ -1261,7 +1277,7 @@ func genConc(prop string, seed uint64, g *gen, thorough bool) *Case {
 		var ops []Op
 		n := total/nc + r.intn(3)
 		role := r.intn(3) // 0 writer, 1 reader, 2 mixed
-		if prop == "C10" || prop == "C09" {
+		if prop == "C10" || prop == "C09" || prop == "C20" {
 			role = 0
 			if r.p(0.2) && !storm {
 				role = 2
@@ -1286,7 +1302,7 @@ func genConc(prop string, seed uint64, g *gen, thorough bool) *Case {
 				if w.K == "del" {
 					w.Key = g.key()
 				}
-				if prop == "C10" || prop == "C09" {
+				if prop == "C10" || prop == "C09" || prop == "C20" {
 					switch {
 					case r.p(0.1):
 						// around the merge limit (128 KiB) so overflow hand-off occurs
@@ -1332,7 +1348,15 @@ func genConc(prop string, seed uint64, g *gen, thorough bool) *Case {
 				ops = append(ops, Op{K: "yield"})
 			}
 		}
-		if prop == "C10" {
+		if prop == "C20" {
+			// C20 is about the caller's batch: issue most writes through Write
+			for i := range ops {
+				if (ops[i].K == "put" || ops[i].K == "del") && r.p(0.75) {
+					ops[i] = Op{K: "write", Recs: opRecs(&ops[i]), Sync: ops[i].Sync, NoMerge: ops[i].NoMerge}
+				}
+			}
+		}
+		if prop == "C10" || prop == "C20" {
 			// identical delete records of different writers cannot be told
 			// apart in the journal: give every delete its own key
 			uniq := func(k B) B {
